@@ -32,16 +32,17 @@ func (o Op) VarsJSON() string {
 
 // Options tunes the generator.
 type Options struct {
-	MaxDepth     int
-	Budget       int  // total number of field selections
-	Mutations    bool // allow mutation operations
-	ForceName    bool // always name the operation
-	Defer        bool // add @defer to fragments
-	NoVariables  bool
-	NoDirectives bool
-	SecondOp     bool            // allow a second operation in the document
-	SkipFields   []string        // field name prefixes never selected
-	NoSingle     map[string]bool // single-value list coercion placements to exclude ("single@arg", "single@var-nested", …)
+	MaxDepth      int
+	Budget        int  // total number of field selections
+	Mutations     bool // allow mutation operations
+	ForceName     bool // always name the operation
+	Defer         bool // add @defer to fragments
+	NoVariables   bool
+	NoVarInObject bool
+	NoDirectives  bool
+	SecondOp      bool            // allow a second operation in the document
+	SkipFields    []string        // field name prefixes never selected
+	NoSingle      map[string]bool // single-value list coercion placements to exclude ("single@arg", "single@var-nested", …)
 	// Allow re-enables generator classes that are excluded by default because they hit a
 	// recorded finding: "default-omitted-nested", "single@default-nested",
 	// "null-default-list", "int-min", "union-spread-on-non-union".
@@ -543,7 +544,7 @@ func (g *gen) value(t *ast.Type, depth int, label string, allowVars bool, place 
 			if !required && (depth >= 2 || rapid.IntRange(0, 1).Draw(g.t, label+"fomit") == 0) {
 				continue
 			}
-			if allowVars && !g.o.NoVariables && rapid.IntRange(0, 4).Draw(g.t, label+"fvar") == 0 {
+			if allowVars && !g.o.NoVariables && rapid.IntRange(0, 4).Draw(g.t, label+"fvar") == 0 && (!g.o.NoVarInObject || g.allow("variable-in-input-object")) {
 				name := g.variable(f.Type, true, label+f.Name)
 				lits = append(lits, f.Name+": $"+name)
 				m[f.Name] = "$" + name // only the literal is used when variables are mixed in
